@@ -19,13 +19,21 @@ BOUNDED = [{"name": "C12 exhaustive small graphs: order, per-graph node sets, st
 
 def build(eng, tier):
     schema.core_ir(eng)
-    eng.lenient = True
+    add_sort_target(eng)
+
+
+def add_sort_target(eng):
+    """Graph.sort: a ValueError exit has changed nothing (shared with C06). Must be the last target of the engine:
+    it switches the engine to lenient mode (unmodelled library calls are opaque) when it starts."""
     from pyvc.types import VOpaque
     eng.lib_models["onnx_ir.traversal.RecursiveGraphIterator"] = lambda e, p, a, kw, n: [(p, VOpaque("RecursiveGraphIterator"))]
     fields = ["Node._graph", "Node._inputs", "Node._outputs", "Node._name", "Value._producer", "Value._graph", "Value._name",
               "_LinkBox.next", "_LinkBox.prev", "_LinkBox.value", "_LinkBox.owning_list", "DoublyLinkedSet._length", "DoublyLinkedSet._root"]
     unchanged = "unchanged(%s)" % ", ".join(repr(f) for f in fields)
-    t = Target("Graph.sort", mod=CORE, qual="Graph.sort", self_cls="Graph", requires=[], ensures=[],
+
+    def setup(e, p, env):
+        e.lenient = True
+    t = Target("Graph.sort", mod=CORE, qual="Graph.sort", self_cls="Graph", requires=[], ensures=[], setup=setup,
                raises={"ValueError": [unchanged, "ir_clean()"]}, raises_default=[], assert_mode="raise")
     t.local_containers = ("nodes", "sorted_nodes_by_graph", "node_depth", "node_predecessors", "neg_node_index", "priority_queue", "heapq")
     eng.add_target(t)
